@@ -65,7 +65,10 @@ ConHolds(c, r) ==
   CASE c = "NoException"        -> ok
     [] c = "InsideTrue"         -> (ok /\ StrictlyInside(r.shape, r.pn, r.pd)) => r.ans
     [] c = "OutsideFalse"       -> (ok /\ StrictlyOutside(r.shape, r.pn, r.pd)) => ~r.ans
-    [] c = "BatchElementwise"   -> ok => r.batchans = r.ans
+    [] c = "BatchElementwise"   -> \* same verdict alone and inside a batch (decided points only: on the boundary
+                                   \* band either answer is acceptable, also for the batch)
+                                   (ok /\ (StrictlyInside(r.shape, r.pn, r.pd) \/ StrictlyOutside(r.shape, r.pn, r.pd)))
+                                     => r.batchans = r.ans
     [] c = "AgreesWithDistance" -> (ok /\ r.hasdist) =>
                                      /\ StrictlyInside(r.shape, r.pn, r.pd) => r.dzero
                                      /\ StrictlyOutside(r.shape, r.pn, r.pd) => ~r.dzero
